@@ -170,6 +170,8 @@ def cases(tier, seed):
     for t0 in (0.0, 10.0):
         for ctrl in (None, "u1"):
             yield {"runtime": "py", "t0": t0, "ctrl": ctrl, "tier": tier, "depth": 3}
+    # a large time base with a dyadic step: all times are exactly representable (2^30 + k/16), so the fold is exact there too
+    yield {"runtime": "py", "t0": 2.0 ** 30, "ctrl": "u1", "tier": "quick", "depth": 2, "h": 0.125}
     yield {"runtime": "py-refuse"}
     from fv.props import c11_cpp
     yield from c11_cpp.cases(tier, seed)
@@ -182,6 +184,8 @@ def concrete(held_t, ev, counter):
 
 
 def eval_case(case):
+    global H
+    H = case.get("h", 0.1)
     if case["runtime"] == "cpp":
         from fv.props import c11_cpp
         return c11_cpp.eval_case(case)
